@@ -204,7 +204,20 @@ pub mod parser {
     }
 
     fn css_styles<'a>() -> Parser<'a, char, String> {
-        sym('{') * css_strings() - sym('}')
+        (sym('{') * css_strings() - sym('}')).map(|s| normalize_line_ends(&s))
+    }
+
+    /// a style body may span several lines: each line end becomes a single `\n`
+    /// and the blanks in front of it are dropped, whatever the line ending
+    /// convention of the input
+    fn normalize_line_ends(body: &str) -> String {
+        let mut lines: Vec<&str> = body.split('\n').collect();
+        if let Some((_last, inner)) = lines.split_last_mut() {
+            for line in inner {
+                *line = line.trim_end_matches(|c| c == ' ' || c == '\t' || c == '\r');
+            }
+        }
+        lines.join("\n")
     }
 
     /// a = {fill: red}
